@@ -219,6 +219,12 @@ def run(ctx):
     nodevar, contsvar = ps[0], ps[1]
     levelvar = ps[2] if len(ps) > 2 else None
     selfn = nxt.selfname
+    # the rules below follow ONE representation of a row's position: the tuple of "has a following sibling" flags of its
+    # ancestors.  A generator that threads the finished prefix strings (or anything else) instead is not followed.
+    starts0 = [c for c in walk_own(it.node) if isinstance(c, ast.Call) and norm(c.func) == "%s.__next" % it.selfname]
+    if len(starts0) == 1 and len(starts0[0].args) >= 2 and isinstance(starts0[0].args[1], ast.Constant) and isinstance(starts0[0].args[1].value, str):
+        raise AnalysisError("C09: RenderTree.__next is started with the string %r where the position tuple is expected: rows carry their "
+                            "prefix strings instead of the tuple of continuation flags - this representation is not followed" % starts0[0].args[1].value)
     # ------------------------------------------------------------------ V1
     rec_calls = [c for c in walk_own(nxt.node) if isinstance(c, ast.Call) and norm(c.func) in ("%s.__next" % selfn, "RenderTree.__next")]
     if not rec_calls:
@@ -419,7 +425,7 @@ def run(ctx):
     scope = [g for g in p.all_funcs if g.module.relpath in ("anytree/node/util.py", "anytree/node/node.py", "anytree/node/anynode.py",
                                                             "anytree/node/symlinknode.py", RENDER)]
     rule_mixed_membership(ctx, typer, scope, "V4")
-    if undecided and not ctx.findings:
+    if undecided and not ctx.new_findings():
         raise AnalysisError("C09 cannot follow this implementation of RenderTree: %s" % "; ".join(undecided[:3]))
     ctx.floor("V1", 6)
     ctx.floor("V2", 2)
